@@ -15,8 +15,9 @@ Driver for C10. Case lines (see harness/c10/main.go):
       follow-ups: the same chain with every handler passing through; then the route [99: W] behind
       the first <global> handlers (router-global middleware; they have no behaviour there: return).
 
-  <id> T <waitH> <custom> <budget ms, 0 = 1h> <prog: n hact…> => <status> <body> <escaped> <releasedEarly> <hpanicked> <recovered> <follow>
-      hact = W | D | X | aC | aE | aT | sH | aR | hold | P<v> | G<n>   (the timed chain, flattened; G<n> = Next's loop test)
+  <id> T <waitH> <waitL> <custom> <budget ms, 0 = 1h> <prog: n hact…> => <status> <body> <escaped> <releasedEarly> <hpanicked> <recovered> <follow>
+      waitL = the timeout middleware's logger waits (inside its Warn call) for the handler's signal
+      hact = W | D | X | aC | aL | aE | aT | sH | aR | hold | P<v> | G<n>   (the timed chain, flattened; G<n> = Next's loop test)
 
   <id> O <opts: n opt…> <path> <prog: n hact…> => <hasDeadline> <budget s, 0 without deadline> <skipFn calls> <status> <body> <escaped> <hpanicked> <recovered>
       opt = D <ms> | NL | WL | H <tag> | SP <paths> | PX <paths> | SX <paths> | SK <0 = nil | 1 = returns false | 2 = returns true>
@@ -146,7 +147,7 @@ open Rivaas.Timeout in
 def pHAct : P HAct := do
   let t ← tok
   if t == "W" then pure .write else if t == "D" then pure .fireDl else if t == "X" then pure .firePc
-  else if t == "aC" then pure .awaitCtx else if t == "aE" then pure .awaitE else if t == "aT" then pure .awaitT else if t == "sH" then pure .signalH
+  else if t == "aC" then pure .awaitCtx else if t == "aL" then pure .awaitL else if t == "aE" then pure .awaitE else if t == "aT" then pure .awaitT else if t == "sH" then pure .signalH
   else if t == "aR" then pure .awaitRet else if t == "hold" then pure .hold
   else if t.startsWith "G" then
     match (t.drop 1).toString.toNat? with
@@ -173,8 +174,9 @@ def tStatus (c : Option Timeout.Chunk) : Nat :=
 
 open Rivaas.Timeout in
 def stepT (id : String) (inp obs : List String) : String :=
-  let pIn : P (Bool × Bool × Nat × List HAct) := do
-    let w ← bool; let c ← bool; let budget ← nat; let p ← list pHAct; pure (w, c, budget, p)
+  let pIn : P (Hooks × Bool × Nat × List HAct) := do
+    let w ← bool; let wl ← bool; let c ← bool; let budget ← nat; let p ← list pHAct
+    pure ({ waitH := w, waitL := wl }, c, budget, p)
   let pOut : P (Nat × List Nat × Option Nat × Bool × Bool × Bool × Nat) := do
     let st ← nat; let b ← list nat; let e ← opt nat; let re ← bool; let hp ← bool; let rc ← bool; let f ← nat
     pure (st, b, e, re, hp, rc, f)
